@@ -100,7 +100,8 @@ class Slice(NullCell):
         if rem != 2:
             raise SliceError('Unsupported address type')
         if self.preload_uint(3) % 2:
-            raise SliceError('Unsupported anycast in preload_address')
+            # addr_std with anycast: variable layout, read it from a copy so that nothing is consumed
+            return self.copy().load_address()
 
         rem = self.preload_bits(267)
 
